@@ -31,6 +31,9 @@ ENTRY_POINTS = [
     'fiddle._src.tagging.add_tag',
     'fiddle._src.copying.copy_with',
     'fiddle._src.casting.cast',
+    # the plain-Python face of an auto_unconfig function runs a build of its
+    # own, from whatever thread calls it
+    'fiddle._src.experimental.auto_config.auto_unconfig',
 ]
 
 # classification of shared module-level state written on those paths
@@ -223,6 +226,14 @@ def writers_of(ctx: Ctx, objs) -> Dict[str, List[Tuple[str, ast.AST, str]]]:
           o = obj_of(t.value)
           if o:
             out[o].append((fq, n, f'attribute {how} .{t.attr}'))
+      if isinstance(n, (ast.With, ast.AsyncWith)):
+        # `with <shared instance>:` runs its __enter__ / __exit__
+        for it_ in n.items:
+          o = obj_of(it_.context_expr)
+          if o and objs[o][0].startswith('instance:'):
+            for mname in ('__enter__', '__exit__'):
+              if mname in inst_methods.get(o, ()):
+                out[o].append((fq, n, f'mutating method .{mname}() (with)'))
       if isinstance(n, ast.Call):
         if isinstance(n.func, ast.Attribute):
           o = obj_of(n.func.value)
@@ -332,6 +343,29 @@ def run(ctx: Ctx, rs: RuleSet, tier: str):
       rebound = [(fq, n) for fq, n, how in writers[q]
                  if how == 'rebinding via global']
       is_tls = cq is not None and 'threading.local' in p.mro(cq)
+      # attributes kept in __slots__ live on the class (descriptors), outside
+      # the per-thread dict: one value for all threads
+      slotted = []
+      for bq in (p.mro(cq) if cq else []):
+        bci = p.classes.get(bq)
+        if bci is None:
+          continue
+        if '__slots__' in bci.class_assigns and unparse(
+            bci.class_assigns['__slots__']) not in ('()', '[]'):
+          slotted.append(f'{bq}.__slots__')
+        for d in bci.node.decorator_list:
+          if isinstance(d, ast.Call) and any(
+              k.arg == 'slots' and not (isinstance(
+                  k.value, ast.Constant) and not k.value.value)
+              for k in d.keywords):
+            slotted.append(f'@{unparse(d)[:50]} on {bq}')
+      if slotted:
+        rs.fail(rule, q + ':slots',
+                f'{slotted[0]}: the attributes of this threading.local '
+                'subclass are slot descriptors, stored once on the instance '
+                'and shared by every thread (and re-initialised whenever a '
+                'new thread first touches the object): one thread\'s switch '
+                'is seen by all', loc)
       rs.check(is_tls and not rebound, rule, q,
                f'instance of {cq}, MRO {p.mro(cq) if cq else None}; the '
                'module-level name is never rebound' if not rebound else
